@@ -198,7 +198,7 @@ def gen_case(rng):
     case = {"kind": kind, "trees": trees, "inward": inward, "R": rng.choice([1, 1, 2, 3, 4, 5]),
             "kernel": rng.choice(["flat", "harmonic", "geometric"]),
             "orient": rng.choice(["before", "after", "symmetric", "directional"]),
-            "fmt": rng.choice(["csr", "csr", "csr", "csc", "coo", "lil"]), "trees2": None}
+            "fmt": rng.choice(["csr", "csr", "csc", "coo", "lil", "lil"]), "trees2": None, "prehistory": rng.random() < 0.5}
     kargs = {"offset": rng.choice([0, 0, 0, 0, 1, 2])}
     if kind == "forest" and rng.random() < 0.2:
         kargs["normalize"] = True                  # (per-window normalisation differs for the token vectorizer)
